@@ -68,6 +68,7 @@ type sysState struct {
 	lastTags string
 	ecIP     net.IP
 	raceRan  bool
+	outage   map[string]int  // victim names whose own servers currently answer with this rcode
 	nsHosts  map[string]bool // name-server host names the attacker's referrals mentioned
 }
 
@@ -165,7 +166,7 @@ func sysNew(mode string, qmin int, sec, ka, v6 bool) {
 	e := w.AddZone(evilZone, l3.ZoneOpts{})
 	e.Add("a.evil.test. 300 IN A 198.18.1.1", "d.evil.test. 300 IN DNAME victim.test.", "c.evil.test. 300 IN CNAME a.evil.test.")
 	s := &sysState{w: w, victim: v, evil: e, vsrv: v.Servers[0], esrv: e.Servers[0], trap: trap, trapIP: trap.IP, localIP: local, mode: mode,
-		scripts: map[string]func(dns.Question, *dns.Msg) *dns.Msg{}, tcpScripts: map[string]func(dns.Question, *dns.Msg, bool) *dns.Msg{}, frameScripts: map[string]func(*dns.Msg, *dns.Msg, bool, int) []*dns.Msg{}, spoof: map[string]func(*dns.Msg) []*dns.Msg{}, asked: map[string]bool{}, nsHosts: map[string]bool{}}
+		scripts: map[string]func(dns.Question, *dns.Msg) *dns.Msg{}, tcpScripts: map[string]func(dns.Question, *dns.Msg, bool) *dns.Msg{}, frameScripts: map[string]func(*dns.Msg, *dns.Msg, bool, int) []*dns.Msg{}, spoof: map[string]func(*dns.Msg) []*dns.Msg{}, asked: map[string]bool{}, nsHosts: map[string]bool{}, outage: map[string]int{}}
 	tamper := func(q dns.Question, honest *dns.Msg, tcp bool) *dns.Msg {
 		name := lcn(q.Name)
 		s.mu.RLock()
@@ -215,7 +216,15 @@ func sysNew(mode string, qmin int, sec, ka, v6 bool) {
 	w.AddrMap[net.JoinHostPort(s.esrv.IP.String(), "53")] = s.front.addr
 	w.AddrMap[net.JoinHostPort(ec.Servers[0].IP.String(), "53")] = s.front.addr
 	s.ecIP = ec.Servers[0].IP
-	s.vsrv.SetBehaviour(l3.Behaviour{Pre: func(req *dns.Msg) []*dns.Msg {
+	s.vsrv.SetBehaviour(l3.Behaviour{Rcode: func(q dns.Question) int {
+		s.mu.RLock()
+		rc, ok := s.outage[lcn(q.Name)]
+		s.mu.RUnlock()
+		if ok {
+			return rc
+		}
+		return -1
+	}, Pre: func(req *dns.Msg) []*dns.Msg {
 		if len(req.Question) != 1 {
 			return nil
 		}
@@ -375,6 +384,18 @@ func (s *sysState) audit() string {
 	// 1b. no address from a record owned by a victim name became a name-server address
 	for h := range s.nsHosts {
 		v4, v6 := resolver.VerifC07GlueCached(s.p.Resolver, h)
+		if !inAttackerZone(h) {
+			for _, a := range append(append([]netip.Addr(nil), v4...), v6...) {
+				ip := net.IP(a.AsSlice())
+				var rr dns.RR = rrA(h, ip)
+				if a.Is6() {
+					rr = rrAAAA(h, ip)
+				}
+				if !s.w.Published(rr) {
+					return fail("l3/audit/glue-cache-holds-unpublished-address", "host=%s addr=%s", h, a)
+				}
+			}
+		}
 		for _, a := range append(append([]netip.Addr(nil), v4...), v6...) {
 			if oLoopback(a) || ownIfaces[a.Unmap()] {
 				return fail("l3/audit/looked-up-ns-address-is-loopback-or-local", "host=%s addr=%s", h, a)
@@ -516,7 +537,7 @@ func (s *sysState) audit() string {
 func (s *sysState) attack(shape string, k int) (string, string) {
 	// "<shape>.<mod>": the same scripted reply under another header rcode, with or without an SOA
 	shape, mod, _ := strings.Cut(shape, ".")
-	var preStep func()
+	var preStep, postStep func()
 	// between two attacks the attacker waits out the resolver's back-off: five minutes pass for the
 	// RFC 9520 failure cache and the circuit breaker (and only for them - record TTLs are not aged),
 	// otherwise one failed attempt would shield every later shape of the world from reaching the wire
@@ -974,6 +995,77 @@ func (s *sysState) attack(shape string, k int) (string, string) {
 			}
 			return m
 		}
+	// ---- out-of-zone glue while the victim zone is in trouble: the NS target is a host of the victim zone, the
+	// additional section offers the attacker's address for it, and the victim's own servers answer that
+	// host's address question with SERVFAIL / REFUSED at this moment
+	case "glue-oob-outage", "glue-oob-outage-refused", "glue-oob-outage6":
+		host := "mail.victim.test."
+		s.nsHosts[host] = true
+		s.outage[host] = dns.RcodeServerFailure
+		if shape == "glue-oob-outage-refused" {
+			s.outage[host] = dns.RcodeRefused
+		}
+		referral(func(m *dns.Msg) {
+			m.Ns = []dns.RR{rrNS(sub, host, dns.ClassINET)}
+			withOpt(m, rrA(host, evilIP))
+			if shape == "glue-oob-outage6" {
+				withOpt(m, rrAAAA(host, net.ParseIP("2001:db8:66::5")))
+			}
+		})
+		postStep = func() {
+			s.mu.Lock()
+			delete(s.outage, host)
+			s.mu.Unlock()
+			// the outage is over and its back-off has run out
+			cache.VerifC07AgeFailures(s.p.Cache, 5*time.Minute+time.Second)
+			resolver.VerifC07AgeBreaker(s.p.Resolver, 31*time.Second)
+		}
+	// ---- the recovery branch: every server of a delegation produces network errors five times, the resolver
+	// re-asks for the addresses of its name-server hosts (checkHosts) and the zone holding the host name
+	// answers with loopback / local-interface addresses
+	case "checkhosts-loop", "checkhosts-local", "checkhosts-loop6", "checkhosts-foreign":
+		nsx := fmt.Sprintf("nsx%d.%s", k, evilZone)
+		s.nsHosts[nsx] = true
+		dead := net.IPv4(203, 0, 113, byte(200+k)) // routed to a closed port: every exchange fails at once
+		names := []string{}
+		for i := 0; i < 7; i++ {
+			names = append(names, fmt.Sprintf("x%d.%s", i, sub))
+		}
+		for _, n := range names {
+			s.scripts[lcn(n)] = func(q dns.Question, honest *dns.Msg) *dns.Msg {
+				m := base(q, honest)
+				m.Authoritative = false
+				m.Ns = []dns.RR{rrNS(sub, nsx, dns.ClassINET)}
+				withOpt(m, rrA(nsx, dead))
+				return m
+			}
+		}
+		asked := 0
+		s.scripts[lcn(nsx)] = func(q dns.Question, honest *dns.Msg) *dns.Msg {
+			m := base(q, honest)
+			asked++
+			switch {
+			case q.Qtype == dns.TypeA && shape == "checkhosts-loop":
+				m.Answer = []dns.RR{rrA(nsx, net.IPv4(127, 0, 0, 53)), rrA(nsx, net.IPv4(127, 0, 0, 1))}
+			case q.Qtype == dns.TypeA && shape == "checkhosts-local" && s.localIP != nil:
+				m.Answer = []dns.RR{rrA(nsx, s.localIP)}
+			case q.Qtype == dns.TypeA && shape == "checkhosts-foreign":
+				m.Answer = []dns.RR{rrA("www.victim.test.", forgedIP)}
+			case q.Qtype == dns.TypeAAAA && shape == "checkhosts-loop6":
+				m.Answer = []dns.RR{rrAAAA(nsx, net.IPv6loopback), rrAAAA(nsx, net.ParseIP("::ffff:127.0.0.1"))}
+			case q.Qtype == dns.TypeA:
+				m.Answer = []dns.RR{rrA(nsx, dead)}
+			}
+			return m
+		}
+		trigger = names[6]
+		preStep = func() {
+			for i := 0; i < 6; i++ {
+				s.clientQuery(names[i], dns.TypeA)
+				cache.VerifC07AgeFailures(s.p.Cache, 5*time.Minute+time.Second)
+				resolver.VerifC07AgeBreaker(s.p.Resolver, 31*time.Second)
+			}
+		}
 	// ---- two client queries racing through one multi-label delegation: the second finds the delegation
 	// the first has just cached (the cache hit INSIDE processDelegation) and goes on from there; the
 	// attacker then refers it on with glue for the sibling victim zone's name server
@@ -1144,6 +1236,9 @@ func (s *sysState) attack(shape string, k int) (string, string) {
 			}
 		}
 	}
+	if postStep != nil {
+		postStep()
+	}
 	if shape == "race-cached-delegation" && or == "ok" {
 		// the referral came from the servers of evil.co.test.: glue for a name server of the sibling
 		// zone victim.co.test. is outside the delegating zone and must not have been taken
@@ -1166,6 +1261,7 @@ var allShapes = []string{
 	"glue-oob", "glue-strsuffix", "glue-notns", "glue-loop", "glue-local",
 	"cname-forged.nxsoa", "cname-forged.nx", "cname-forged.sf", "cname-forged.sfsoa", "ans-a.nxsoa", "ans-ns.nxsoa", "ans-dname.nxsoa",
 	"sig-cname-forged.nxsoa", "ans-a.yxsoa", "cname-forged-ghost.nxsoa", "ans-foreign-only.nxsoa",
+	"glue-oob-outage", "glue-oob-outage-refused", "glue-oob-outage6", "checkhosts-loop", "checkhosts-local", "checkhosts-loop6", "checkhosts-foreign",
 	"race-cached-delegation", "tcp-id0", "tcp-id0-tc", "pre-id0",
 	"nsaddr6-loop", "nsaddr6-mapped-loop", "nsaddr6-local", "nsaddr6-foreign", "nsaddr6-honest", "glue6-loop",
 	"pool-stale-then-forged", "pool-stale-then-forged-rightid", "pool-stale-then-referral",
